@@ -27,48 +27,49 @@ Variable pv : N.
 Variable sv : N.
 Variable bound : N.
 Variable u : counts.
+Variable fl : list (N * nat).
 
 Lemma cshape_nil' l c c' : c <= c' -> cshape u l [] [] l c c'.
 Proof. intros H. eapply cshape_widen; [apply (cshape_nil u l c) | lia | exact H]. Qed.
 
-Lemma L_expr_zero : L_expr pv sv bound u O.
+Lemma L_expr_zero : L_expr pv sv bound u fl O.
 Proof. intros k x ctx c code v c' sc l H. discriminate. Qed.
 
 Lemma used_plain (l : alut) t (ss : list stmt) : snd (if 0 <? count_of u t then (ss, l) else ([], l)) = l.
 Proof. destruct (0 <? count_of u t); reflexivity. Qed.
 
 (* the code after the first operand of and / or *)
-Lemma and_tail_shape l1 t fl va code_b vb cb0 cb1 c c' :
+Lemma and_tail_shape l1 t flg va code_b vb cb0 cb1 c c' :
   (forall l0, exists b2 l2, cshape u l0 code_b b2 l2 cb0 cb1 /\ cb0 <= vb /\ vb < cb1) ->
-  c <= cb0 -> cb1 <= c' -> c <= t < c' -> c <= fl < c' ->
-  exists bl l', cshape u l1 ([IDefine t; IBool fl false; IAssign t fl; IIf va] ++ code_b ++ [IAssign t vb; IEnd]) bl l' c c'.
+  c <= cb0 -> cb1 <= c' -> c <= t < c' -> c <= flg < c' ->
+  exists bl l', cshape u l1 ([IDefine t; IBool flg false; IAssign t flg; IIf va] ++ code_b ++ [IAssign t vb; IEnd]) bl l' c c'.
 Proof.
   intros Hb2 Hc0 Hc1 Ht Hfl.
-  set (l1' := snd (aiis u l1 fl EFalse)).
+  set (l1' := snd (aiis u l1 flg EFalse)).
   destruct (Hb2 l1') as (b2 & l2 & Hs2 & ? & ?).
   eexists _, _. cbn [app].
   eapply cshape_cons'; [apply (cshape_plain u l1 (IDefine t) c c'); [lia | reflexivity | reflexivity | apply used_plain]|].
-  eapply cshape_cons'; [eapply (cshape_iis u l1 (IBool fl false) fl EFalse c c'); [lia | reflexivity | reflexivity]|].
-  eapply cshape_cons'; [apply (cshape_plain u l1' (IAssign t fl) c c'); [lia | reflexivity | reflexivity | apply used_plain]|].
+  eapply cshape_cons'; [eapply (cshape_iis u l1 (IBool flg false) flg EFalse c c'); [lia | reflexivity | reflexivity]|].
+  eapply cshape_cons'; [apply (cshape_plain u l1' (IAssign t flg) c c'); [lia | reflexivity | reflexivity | apply used_plain]|].
   replace (code_b ++ [IAssign t vb; IEnd]) with ((code_b ++ [IAssign t vb]) ++ [IEnd]) by (rewrite <- app_assoc; reflexivity).
   apply cshape_if.
   eapply cshape_app'; [eapply cshape_widen; [exact Hs2 | lia | lia]|].
   apply (cshape_plain u l2 (IAssign t vb) c c'); [lia | reflexivity | reflexivity | apply used_plain].
 Qed.
 
-Lemma or_tail_shape l1 t fl na va code_b vb cb0 cb1 c c' :
+Lemma or_tail_shape l1 t flg na va code_b vb cb0 cb1 c c' :
   (forall l0, exists b2 l2, cshape u l0 code_b b2 l2 cb0 cb1 /\ cb0 <= vb /\ vb < cb1) ->
-  c <= cb0 -> cb1 <= c' -> c <= t < c' -> c <= fl < c' -> c <= na < c' ->
-  exists bl l', cshape u l1 ([IDefine t; IBool fl true; IAssign t fl; INot na va; IIf na] ++ code_b ++ [IAssign t vb; IEnd]) bl l' c c'.
+  c <= cb0 -> cb1 <= c' -> c <= t < c' -> c <= flg < c' -> c <= na < c' ->
+  exists bl l', cshape u l1 ([IDefine t; IBool flg true; IAssign t flg; INot na va; IIf na] ++ code_b ++ [IAssign t vb; IEnd]) bl l' c c'.
 Proof.
   intros Hb2 Hc0 Hc1 Ht Hfl Hna.
-  set (l1' := snd (aiis u l1 fl ETrue)).
+  set (l1' := snd (aiis u l1 flg ETrue)).
   set (l1'' := snd (aiis u l1' na (EParen (EUn UNot (aexpand l1' va))))).
   destruct (Hb2 l1'') as (b2 & l2 & Hs2 & ? & ?).
   eexists _, _. cbn [app].
   eapply cshape_cons'; [apply (cshape_plain u l1 (IDefine t) c c'); [lia | reflexivity | reflexivity | apply used_plain]|].
-  eapply cshape_cons'; [eapply (cshape_iis u l1 (IBool fl true) fl ETrue c c'); [lia | reflexivity | reflexivity]|].
-  eapply cshape_cons'; [apply (cshape_plain u l1' (IAssign t fl) c c'); [lia | reflexivity | reflexivity | apply used_plain]|].
+  eapply cshape_cons'; [eapply (cshape_iis u l1 (IBool flg true) flg ETrue c c'); [lia | reflexivity | reflexivity]|].
+  eapply cshape_cons'; [apply (cshape_plain u l1' (IAssign t flg) c c'); [lia | reflexivity | reflexivity | apply used_plain]|].
   eapply cshape_cons'; [eapply (cshape_iis u l1' (INot na va) na _ c c'); [lia | reflexivity | reflexivity]|].
   replace (code_b ++ [IAssign t vb; IEnd]) with ((code_b ++ [IAssign t vb]) ++ [IEnd]) by (rewrite <- app_assoc; reflexivity).
   apply cshape_if.
@@ -78,39 +79,39 @@ Qed.
 
 
 (* ---- unfolding equations of the fragment predicate (cbn would expose the raw mutual fixpoint) ---- *)
-Lemma frag_expr_if k sc brs sp : frag_expr pv sv bound (S k) sc (EIf brs sp) = frag_branches pv sv bound k sc brs.
+Lemma frag_expr_if k sc brs sp : frag_expr pv sv bound fl (S k) sc (EIf brs sp) = frag_branches pv sv bound fl k sc brs.
 Proof. reflexivity. Qed.
 Lemma frag_branches_some k sc cond body sp brs :
-  frag_branches pv sv bound (S k) sc (IfBranch (Some cond) body sp :: brs) =
-  (frag_expr pv sv bound k sc cond && is_some (frag_stmts pv sv bound k sc body) && frag_branches pv sv bound k sc brs)%bool.
+  frag_branches pv sv bound fl (S k) sc (IfBranch (Some cond) body sp :: brs) =
+  (frag_expr pv sv bound fl k sc cond && is_some (frag_stmts pv sv bound fl k sc body) && frag_branches pv sv bound fl k sc brs)%bool.
 Proof. reflexivity. Qed.
 Lemma frag_branches_none k sc body sp brs :
-  frag_branches pv sv bound (S k) sc (IfBranch None body sp :: brs) =
-  match brs with [] => is_some (frag_stmts pv sv bound k sc body) | _ => false end.
+  frag_branches pv sv bound fl (S k) sc (IfBranch None body sp :: brs) =
+  match brs with [] => is_some (frag_stmts pv sv bound fl k sc body) | _ => false end.
 Proof. destruct brs; reflexivity. Qed.
 Lemma frag_stmts_cons k sc s ss :
-  frag_stmts pv sv bound (S k) sc (s :: ss) =
-  match frag_stmt pv sv bound k sc s with Some sc' => frag_stmts pv sv bound k sc' ss | None => None end.
+  frag_stmts pv sv bound fl (S k) sc (s :: ss) =
+  match frag_stmt pv sv bound fl k sc s with Some sc' => frag_stmts pv sv bound fl k sc' ss | None => None end.
 Proof. reflexivity. Qed.
 Lemma frag_stmt_block k sc ss sp :
-  frag_stmt pv sv bound (S k) sc (SBlock ss sp) =
-  match frag_stmts pv sv bound k sc ss with Some _ => Some sc | None => None end.
+  frag_stmt pv sv bound fl (S k) sc (SBlock ss sp) =
+  match frag_stmts pv sv bound fl k sc ss with Some _ => Some sc | None => None end.
 Proof. reflexivity. Qed.
 Lemma frag_stmt_sexpr k sc value sp :
-  frag_stmt pv sv bound (S k) sc (SStatementExpression value sp) = if frag_expr pv sv bound k sc value then Some sc else None.
+  frag_stmt pv sv bound fl (S k) sc (SStatementExpression value sp) = if frag_expr pv sv bound fl k sc value then Some sc else None.
 Proof. reflexivity. Qed.
 Lemma frag_stmt_loop k sc cond body sp :
-  frag_stmt pv sv bound (S k) sc (SLoop cond body sp) =
-  if (noexit_expr k cond && frag_expr pv sv bound k sc cond && is_some (frag_stmts pv sv bound k sc body))%bool then Some sc else None.
+  frag_stmt pv sv bound fl (S k) sc (SLoop cond body sp) =
+  if (noexit_expr k cond && frag_expr pv sv bound fl k sc cond && is_some (frag_stmts pv sv bound fl k sc body))%bool then Some sc else None.
 Proof. reflexivity. Qed.
 Lemma frag_stmt_assign k sc op v vsp value sp :
-  frag_stmt pv sv bound (S k) sc (SAssignment op (ERead v vsp) value sp) =
-  if (assign_op op && memN v sc && frag_expr pv sv bound k sc value)%bool then Some sc else None.
+  frag_stmt pv sv bound fl (S k) sc (SAssignment op (ERead v vsp) value sp) =
+  if (assign_op op && memN v sc && frag_expr pv sv bound fl k sc value)%bool then Some sc else None.
 Proof. reflexivity. Qed.
 Lemma frag_stmt_def_eq k sc name var kd t value sp :
   is_function value = false ->
-  frag_stmt pv sv bound (S k) sc (SDefinition name var kd t value sp) =
-  if (fresh_id pv sv bound sc var && frag_expr pv sv bound k (var :: sc) value)%bool then Some (var :: sc) else None.
+  frag_stmt pv sv bound fl (S k) sc (SDefinition name var kd t value sp) =
+  if (fresh_id pv sv bound fl sc var && frag_expr pv sv bound fl k (var :: sc) value)%bool then Some (var :: sc) else None.
 Proof. destruct value; try discriminate; reflexivity. Qed.
 
 Lemma definition_nonfun f var value ctx :
@@ -119,23 +120,23 @@ Lemma definition_nonfun f var value ctx :
 Proof. destruct value; try discriminate; reflexivity. Qed.
 
 Lemma frag_stmt_def k sc name var kd t value sp sc' :
-  frag_stmt pv sv bound (S k) sc (SDefinition name var kd t value sp) = Some sc' ->
-  is_function value = false /\ fresh_id pv sv bound sc var = true /\ frag_expr pv sv bound k (var :: sc) value = true /\ sc' = var :: sc.
+  frag_stmt pv sv bound fl (S k) sc (SDefinition name var kd t value sp) = Some sc' ->
+  is_function value = false /\ fresh_id pv sv bound fl sc var = true /\ frag_expr pv sv bound fl k (var :: sc) value = true /\ sc' = var :: sc.
 Proof.
   intros H. assert (Hnf : is_function value = false) by (destruct value; try reflexivity; discriminate H).
   rewrite (frag_stmt_def_eq _ _ _ _ _ _ _ _ Hnf) in H.
-  destruct (fresh_id pv sv bound sc var); [|discriminate H]. cbn [andb] in H.
-  destruct (frag_expr pv sv bound k (var :: sc) value); [|discriminate H]. inversion H. auto.
+  destruct (fresh_id pv sv bound fl sc var); [|discriminate H]. cbn [andb] in H.
+  destruct (frag_expr pv sv bound fl k (var :: sc) value); [|discriminate H]. inversion H. auto.
 Qed.
 
 Definition L_stmt (g : nat) : Prop :=
   forall k s ctx c code c' sc sc' l,
-    statement g s ctx c = Ok (code, c') -> frag_stmt pv sv bound k sc s = Some sc' ->
+    statement g s ctx c = Ok (code, c') -> frag_stmt pv sv bound fl k sc s = Some sc' ->
     exists b l', cshape u l code b l' c c'.
 
 Definition L_stmts (g : nat) : Prop :=
   forall k ss ctx c cs c' sc sc' l,
-    mapM (fun s => statement g s ctx) ss c = Ok (cs, c') -> frag_stmts pv sv bound k sc ss = Some sc' ->
+    mapM (fun s => statement g s ctx) ss c = Ok (cs, c') -> frag_stmts pv sv bound fl k sc ss = Some sc' ->
     exists b l', cshape u l (concat cs) b l' c c'.
 
 Lemma L_stmts_of g : L_stmt g -> L_stmts g.
@@ -143,7 +144,7 @@ Proof.
   intros IH k ss. revert k. induction ss as [|s ss IHss]; intros k ctx c cs c' sc sc' l Hm Hf.
   - destruct (mapM_nil_ok _ _ _ _ Hm) as [-> ->]. eexists _, _. apply cshape_nil.
   - destruct k as [|k]; [discriminate|]. rewrite frag_stmts_cons in Hf.
-    destruct (frag_stmt pv sv bound k sc s) as [sc1|] eqn:Hs; [|discriminate Hf].
+    destruct (frag_stmt pv sv bound fl k sc s) as [sc1|] eqn:Hs; [|discriminate Hf].
     apply mapM_cons_ok in Hm as (y & c1 & ys & Hy & Hys & ->).
     destruct (IH k s ctx c y c1 sc sc1 l Hy Hs) as (b1 & l1 & Hs1).
     destruct (IHss k ctx c1 ys c' sc1 sc' l1 Hys Hf) as (b2 & l2 & Hs2).
@@ -151,13 +152,13 @@ Proof.
 Qed.
 
 Lemma frag_stmts_app k a : forall sc b sc',
-  frag_stmts pv sv bound k sc (a ++ b) = Some sc' ->
-  exists sc1 k', frag_stmts pv sv bound k sc a = Some sc1 /\ frag_stmts pv sv bound k' sc1 b = Some sc'.
+  frag_stmts pv sv bound fl k sc (a ++ b) = Some sc' ->
+  exists sc1 k', frag_stmts pv sv bound fl k sc a = Some sc1 /\ frag_stmts pv sv bound fl k' sc1 b = Some sc'.
 Proof.
   revert k. induction a as [|s a IH]; intros k sc b sc' H.
   - exists sc, k. split; [|exact H]. destruct k; [discriminate | reflexivity].
   - destruct k as [|k]; [discriminate|]. cbn [app] in H. rewrite frag_stmts_cons in *.
-    destruct (frag_stmt pv sv bound k sc s) as [sc0|]; [|discriminate].
+    destruct (frag_stmt pv sv bound fl k sc s) as [sc0|]; [|discriminate].
     apply IH in H. exact H.
 Qed.
 
@@ -182,10 +183,10 @@ Proof.
 Qed.
 
 (* the block of an if-branch / function-like block whose last expression is assigned to `out` *)
-Lemma L_eblock g : L_expr pv sv bound u g -> L_stmts g ->
+Lemma L_eblock g : L_expr pv sv bound u fl g -> L_stmts g ->
   forall k out body ctx c code c' sc sc' l,
     lower_eblock (statement g) (expression g) out body ctx c = Ok (code, c') ->
-    frag_stmts pv sv bound k sc body = Some sc' ->
+    frag_stmts pv sv bound fl k sc body = Some sc' ->
     exists b l', cshape u l code b l' c c'.
 Proof.
   intros IHe IHs k out body ctx c code c' sc sc' l Hlow Hfrag. unfold lower_eblock in Hlow.
@@ -199,7 +200,7 @@ Proof.
   destruct (frag_stmts_app _ _ _ _ _ Hfrag) as (sc1 & k' & Hfi & Hfl).
   destruct k' as [|k']; [discriminate|]. rewrite frag_stmts_cons in Hfl.
   destruct k' as [|k'']; [discriminate|]. rewrite frag_stmt_sexpr in Hfl.
-  destruct (frag_expr pv sv bound k'' sc1 value) eqn:Hfe; [|discriminate Hfl].
+  destruct (frag_expr pv sv bound fl k'' sc1 value) eqn:Hfe; [|discriminate Hfl].
   destruct a0 as [cv rv]. cbn [fst snd] in *.
   destruct (IHs k (rev init_rev) ctx c cs c0 sc sc1 l Hmi Hfi) as (b1 & l1 & Hs1).
   destruct (IHe k'' value ctx c0 cv rv c' sc1 l1 Hm0 Hfe) as (b2 & l2 & Hs2 & _).
@@ -211,16 +212,16 @@ Qed.
 Lemma map_const_snoc {A B} (x : B) (l : list A) : map (fun _ => x) l ++ [x] = x :: map (fun _ => x) l.
 Proof. induction l as [|a l IH]; cbn; [reflexivity | rewrite IH; reflexivity]. Qed.
 
-Lemma L_branches g : L_expr pv sv bound u g -> L_stmts g ->
+Lemma L_branches g : L_expr pv sv bound u fl g -> L_stmts g ->
   forall brs k out ctx c codes c' sc l,
     mapM (lower_if_branch (statement g) (expression g) out ctx) brs c = Ok (codes, c') ->
-    frag_branches pv sv bound k sc brs = true ->
+    frag_branches pv sv bound fl k sc brs = true ->
     exists b l', cshape u l (concat codes ++ map (fun _ => IEnd) brs) b l' c c'.
 Proof.
   intros IHe IHs. induction brs as [|[[cond|] body bsp] brs IH]; intros k out ctx c codes c' sc l Hm Hf.
   - destruct (mapM_nil_ok _ _ _ _ Hm) as [-> ->]. eexists _, _. apply cshape_nil.
   - destruct k as [|k]; [discriminate|]. rewrite frag_branches_some in Hf. frag_split Hf.
-    destruct (frag_stmts pv sv bound k sc body) as [scb|] eqn:Hfb; [|discriminate Hfr0].
+    destruct (frag_stmts pv sv bound fl k sc body) as [scb|] eqn:Hfb; [|discriminate Hfr0].
     apply mapM_cons_ok in Hm as (y & c1 & ys & Hy & Hys & ->).
     unfold lower_if_branch in Hy. mon Hy. destruct a as [code_c vc]. cbn [fst snd] in *.
     destruct (IHe k cond ctx c code_c vc c0 sc l Hm Hf) as (bc & l1 & Hsc & _).
@@ -234,7 +235,7 @@ Proof.
       eapply cshape_ifelse; (eapply cshape_widen; [eassumption | lia | lia]).
     + rewrite <- (map_const_snoc IEnd brs). cbn [app]. rewrite <- !app_assoc. cbn [app]. rewrite <- !app_assoc. reflexivity.
   - destruct k as [|k]; [discriminate|]. rewrite frag_branches_none in Hf. destruct brs; [|discriminate Hf].
-    destruct (frag_stmts pv sv bound k sc body) as [scb|] eqn:Hfb; [|discriminate Hf].
+    destruct (frag_stmts pv sv bound fl k sc body) as [scb|] eqn:Hfb; [|discriminate Hf].
     apply mapM_cons_ok in Hm as (y & c1 & ys & Hy & Hys & ->). destruct (mapM_nil_ok _ _ _ _ Hys) as [-> <-].
     unfold lower_if_branch in Hy. mon Hy. fresh_all.
     set (l1 := snd (aiis u l c ETrue)).
@@ -246,7 +247,24 @@ Proof.
     apply cshape_if. eapply cshape_widen; [exact Hsb | lia | lia].
 Qed.
 
-Lemma L_expr_succ g : L_expr pv sv bound u g -> L_stmts g -> L_expr pv sv bound u (S g).
+(* the arguments of a call, one after the other *)
+Lemma L_args g : L_expr pv sv bound u fl g ->
+  forall args k ctx c rs c' sc l,
+    mapM (fun a => expression g a ctx) args c = Ok (rs, c') ->
+    forallb (frag_expr pv sv bound fl k sc) args = true ->
+    exists b l', cshape u l (concat (map fst rs)) b l' c c' /\ (forall r, In r rs -> c <= snd r < c').
+Proof.
+  intros IH. induction args as [|a args IHa]; intros k ctx c rs c' sc l Hm Hf.
+  - destruct (mapM_nil_ok _ _ _ _ Hm) as [-> ->]. eexists _, _. split; [apply cshape_nil | intros r []].
+  - apply mapM_cons_ok in Hm as (y & c1 & ys & Hy & Hys & ->). cbn [forallb] in Hf. apply andb_prop in Hf as [Hfa Hfs].
+    destruct y as [code_a va]. destruct (IH k a ctx c code_a va c1 sc l Hy Hfa) as (b1 & l1 & Hs1 & Hv1 & Hv2).
+    destruct (IHa k ctx c1 ys c' sc l1 Hys Hfs) as (b2 & l2 & Hs2 & Hrs).
+    pose proof Hs1 as (_ & Hc1 & _). pose proof Hs2 as (_ & Hc2 & _).
+    eexists _, _. split; [cbn [map concat fst]; eapply cshape_app; eassumption|].
+    intros r [<-|Hr]; [cbn [snd]; lia | specialize (Hrs r Hr); lia].
+Qed.
+
+Lemma L_expr_succ g : L_expr pv sv bound u fl g -> L_stmts g -> L_expr pv sv bound u fl (S g).
 Proof.
   intros IH IHs k x ctx c code v c' sc l Hlow Hfrag.
   destruct k as [|k]; [discriminate|].
@@ -255,21 +273,23 @@ Proof.
     cbn [expression] in Hlow. mon Hlow. fresh_all. injection H as <- <-.
     eexists _, _. split; [|lia].
     apply cshape_plain; [lia | reflexivity | reflexivity | apply used_plain].
-  - (* ECall print *)
-    destruct x; try discriminate Hfrag. destruct args as [|a [|? ?]]; try discriminate Hfrag.
-    frag_split Hfrag. apply N.eqb_eq in Hfrag. subst var.
+  - (* ECall: print(a) or f(a1, ..., an) *)
+    destruct x; try discriminate Hfrag.
+    assert (Hargs : forallb (frag_expr pv sv bound fl k sc) args = true).
+    { destruct (var =? pv).
+      - destruct args as [|a [|? ?]]; try discriminate Hfrag. frag_split Hfrag. cbn [forallb]. rewrite Hfr. reflexivity.
+      - destruct (fun_arity fl var); [|discriminate Hfrag]. frag_split Hfrag. exact Hfr. }
+    clear Hfrag.
     cbn [expression] in Hlow. mon Hlow.
     destruct g as [|g']; [discriminate|].
-    cbn [expression] in Hm. mon Hm. fresh_all.
-    apply mapM_cons_ok in Hm0 as (ya & ca & ys & Ha & Hnil & ->). apply mapM_nil_ok in Hnil as [-> ->].
-    fresh_all. injection H as <- <-.
-    destruct ya as [code_a va]. cbn [map fst snd concat] in *. rewrite app_nil_r.
-    destruct (IH k a ctx (c + 1) code_a va ca sc l Ha Hfr) as (b_a & l1 & Hsa & Hva1 & Hva2).
+    cbn [expression] in Hm. mon Hm. fresh_all. injection H as <- <-.
+    cbn [fst snd] in *.
+    destruct (L_args (S g') IH args k ctx (c + 1) _ _ sc l Hm0 Hargs) as (b_a & l1 & Hsa & Hrs).
     pose proof Hsa as (_ & Hca & _).
     eexists _, _. split.
-    + eapply cshape_cons; [apply (cshape_plain u l (ICopy c pv) c (c + 1)); [lia | reflexivity | reflexivity | apply used_plain] |].
+    + eapply cshape_cons; [apply (cshape_plain u l (ICopy c var) c (c + 1)); [lia | reflexivity | reflexivity | apply used_plain] |].
       eapply cshape_app; [exact Hsa|].
-      apply (cshape_plain u l1 _ ca (ca + 1)); [lia | reflexivity | reflexivity | reflexivity].
+      apply (cshape_plain u l1 _ c1 (c1 + 1)); [lia | reflexivity | reflexivity | reflexivity].
     + lia.
   - (* EBinOp *)
     frag_split Hfrag.
@@ -332,7 +352,7 @@ Proof.
     all: eexists _, _; (split; [|lia]); (eapply cshape_app; [exact Hs1|]).
     all: eapply (cshape_iis u l1 _ c0); [lia | reflexivity | reflexivity].
   - (* EIf *)
-    change (frag_branches pv sv bound k sc branches = true) in Hfrag.
+    change (frag_branches pv sv bound fl k sc branches = true) in Hfrag.
     cbn [expression] in Hlow. mon Hlow. fresh_all. inj_code.
     destruct (L_branches g IH IHs branches k c ctx (c + 1) a0 c' sc l Hm0 Hfrag) as (b1 & l1 & Hs1).
     pose proof Hs1 as (_ & ? & _).
@@ -348,14 +368,14 @@ Proof.
 Qed.
 
 
-Lemma L_stmt_succ g : (forall g', (g' <= g)%nat -> L_expr pv sv bound u g') -> L_stmts g -> L_stmt (S g).
+Lemma L_stmt_succ g : (forall g', (g' <= g)%nat -> L_expr pv sv bound u fl g') -> L_stmts g -> L_stmt (S g).
 Proof.
   intros IHe IHs k s ctx c code c' sc sc' l Hlow Hfrag.
   destruct k as [|k]; [discriminate|].
   destruct s; try discriminate Hfrag.
   - (* SAssignment *)
     destruct target; try discriminate Hfrag. rewrite frag_stmt_assign in Hfrag.
-    destruct (assign_op op && memN var sc && frag_expr pv sv bound k sc value)%bool eqn:Hc; [|discriminate Hfrag].
+    destruct (assign_op op && memN var sc && frag_expr pv sv bound fl k sc value)%bool eqn:Hc; [|discriminate Hfrag].
     frag_split Hc.
     cbn [statement] in Hlow. mon Hlow. fresh_all. apply ret_ok in Hm0 as [<- <-]. cbn beta iota in Hlow. mon Hlow.
     destruct a as [code_v rv]. cbn [fst snd app] in *.
@@ -387,8 +407,8 @@ Proof.
     apply (cshape_plain u l1 (IAssign var rv) c' c'); [lia | reflexivity | reflexivity | apply used_plain].
   - (* SLoop *)
     rewrite frag_stmt_loop in Hfrag.
-    destruct (noexit_expr k condition && frag_expr pv sv bound k sc condition && is_some (frag_stmts pv sv bound k sc body))%bool eqn:Hc; [|discriminate Hfrag].
-    frag_split Hc. destruct (frag_stmts pv sv bound k sc body) as [scb|] eqn:Hfb; [|discriminate Hfr].
+    destruct (noexit_expr k condition && frag_expr pv sv bound fl k sc condition && is_some (frag_stmts pv sv bound fl k sc body))%bool eqn:Hc; [|discriminate Hfrag].
+    frag_split Hc. destruct (frag_stmts pv sv bound fl k sc body) as [scb|] eqn:Hfb; [|discriminate Hfr].
     cbn [statement] in Hlow. mon Hlow. fresh_all.
     destruct a as [code_c vc]. cbn [fst snd] in *.
     apply lower_list_ok in Hm1 as (cs & Hmb & ->).
@@ -412,11 +432,11 @@ Proof.
     apply (cshape_plain u l (IGoto ctx) c' c'); [lia | reflexivity | reflexivity | reflexivity].
   - (* SBlock *)
     rewrite frag_stmt_block in Hfrag. cbn [statement] in Hlow. apply lower_list_ok in Hlow as (cs & Hm & ->).
-    destruct (frag_stmts pv sv bound k sc statements) as [sc1|] eqn:Hs; [|discriminate Hfrag].
+    destruct (frag_stmts pv sv bound fl k sc statements) as [sc1|] eqn:Hs; [|discriminate Hfrag].
     eapply IHs; eassumption.
   - (* SStatementExpression *)
     rewrite frag_stmt_sexpr in Hfrag. cbn [statement] in Hlow. mon Hlow.
-    destruct (frag_expr pv sv bound k sc value) eqn:Hfe; [|discriminate Hfrag].
+    destruct (frag_expr pv sv bound fl k sc value) eqn:Hfe; [|discriminate Hfrag].
     destruct a as [code_v rv]. cbn [fst] in *.
     destruct (IHe g (Nat.le_refl g) k value ctx c code_v rv c' sc l Hm Hfe) as (b1 & l1 & Hs1 & _).
     eexists _, _. exact Hs1.
@@ -425,17 +445,17 @@ Qed.
 Lemma L_stmt_zero : L_stmt O.
 Proof. intros k s ctx c code c' sc sc' l H. discriminate. Qed.
 
-Theorem L_all g : forall g', (g' <= g)%nat -> L_expr pv sv bound u g' /\ L_stmt g'.
+Theorem L_all g : forall g', (g' <= g)%nat -> L_expr pv sv bound u fl g' /\ L_stmt g'.
 Proof.
   induction g as [|g IH]; intros g' Hg.
   - assert (g' = O) by lia. subst. split; [apply L_expr_zero | apply L_stmt_zero].
   - destruct (Nat.eq_dec g' (S g)) as [->|Hne]; [|apply IH; lia].
-    assert (He : forall g', (g' <= g)%nat -> L_expr pv sv bound u g') by (intros g'' H; apply IH; exact H).
+    assert (He : forall g', (g' <= g)%nat -> L_expr pv sv bound u fl g') by (intros g'' H; apply IH; exact H).
     assert (Hs : L_stmts g) by (apply L_stmts_of; apply IH; lia).
     split; [apply L_expr_succ; [apply He; lia | exact Hs] | apply L_stmt_succ; assumption].
 Qed.
 
-Theorem L_expr_all g : L_expr pv sv bound u g.
+Theorem L_expr_all g : L_expr pv sv bound u fl g.
 Proof. apply (L_all g g (Nat.le_refl g)). Qed.
 Theorem L_stmt_all g : L_stmt g.
 Proof. apply (L_all g g (Nat.le_refl g)). Qed.
